@@ -782,6 +782,26 @@ def check_element(ctx, case):
     ctx.count('swept.%s.element' % lab)
     swept.append(e)
 
+    # --- the list of mass numbers handed to a caller is the caller's: reversing it, cutting it down or appending to
+    #     it changes neither the next list nor the iteration nor the string lookups
+    try:
+        mine = e.isotopes
+        if isinstance(mine, list) and mine:
+            mine.reverse()
+            del mine[:max(1, len(mine) // 2)]
+            mine.append(1000)
+            ctx.count('scribbled.isotope_lists')
+        ions_seen = e.ions
+        if isinstance(ions_seen, list):
+            ions_seen.append(99)
+            ions_seen.reverse()
+    except Exception:
+        pass
+    ctx.evaluated(1, 'isotope-list-after-edit')
+    if list(e.isotopes) != isos:
+        ctx.violation('%s: %s.isotopes is %r after the list returned by an earlier read was edited by its owner, expected %r'
+                      % (variant, sym, list(e.isotopes)[:12], isos[:12]), route='isotopes', key=list(key), kind='live-list')
+
     # --- iteration over the isotopes: increasing A, exactly once, the same objects
     ctx.evaluated(3, 'iteration.isotopes')
     listed = list(e)
